@@ -277,7 +277,9 @@ var rawMatchers = []MatcherSpec{
 }
 
 var rawExtracts = []string{`{0}`, `{1}`, `{2}{1}`, `{src}:{line}`, `{@}`, `{a}{b}`, `{len {0}}`, `{1}-{3}`, `x`, `{tail}`, `{val}`, `{prefix {0} a}`}
-var rawIgnores = [][]string{nil, nil, {`{eq {0} ""}`}, {`{isint {0}}`}, {`{like {0} a}`}, {`{1}`}, {`{prefix {0} b}`, `{suffix {0} 7}`}, {" "}}
+var rawIgnores = [][]string{nil, nil, {`{eq {0} ""}`}, {`{isint {0}}`}, {`{like {0} a}`}, {`{1}`}, {`{prefix {0} b}`, `{suffix {0} 7}`}, {" "},
+	// rules about WHERE a line is (skip the header line, skip one input): the ignore expression sees the line's own position
+	{`{eq {line} 1}`}, {`{eq {line} 2}`, `{suffix {src} 1}`}, {`{suffix {line} 7}`, `{like {0} b}`}, {`{suffix {src} 0}`}}
 var rawAlphabet = []byte("aabbc 0177AB\n\n\n\r\x00\xff\xc3\xa9:")
 
 // GenRaw builds an unstructured workload judged against the sequential reference.
